@@ -34,6 +34,10 @@ PATH_METHODS = {"iterdir": "directory listing", "glob": "directory listing", "rg
 MUTATORS = {"append", "extend", "update", "insert", "remove", "pop", "clear", "sort", "reverse", "add", "discard", "setdefault", "popitem"}
 MEMO = {"cache", "lru_cache", "cached_property", "memoize", "memoized"}
 PACKAGES = ("suit_generator", "ncs", "build_configuration")
+IMMUTABLE_CTORS = {"tuple", "frozenset", "str", "int", "bytes", "float", "bool", "complex", "pathlib.Path", "pathlib.PurePath", "range",
+                   "os.path.join", "os.path.abspath", "os.path.dirname", "uuid.UUID", "re.compile", "object"}
+READONLY_METHODS = {"get", "items", "keys", "values", "copy", "index", "count", "startswith", "endswith", "hex", "decode", "encode", "join",
+                    "lower", "upper", "strip", "split", "format", "is_file", "exists", "read_text", "read_bytes", "tobinstr", "minaddr", "maxaddr"}
 
 
 def forbidden_in(ctx, f):
@@ -293,15 +297,45 @@ def shared_state(ctx):
                     r = repo.resolve_name(f.module, a0.id)
                     if (r and r[0] == "class") or a0.id == "cls":
                         bad.append((n, f"setattr on a class: {ast.unparse(n)[:60]}"))
-        # mutable default arguments that are mutated
-        for d, arg in zip(reversed(f.node.args.defaults), reversed(f.node.args.args)):
-            if isinstance(d, (ast.List, ast.Dict, ast.Set)):
-                muts = [x for x in walk_no_nested(f.node) if isinstance(x, ast.Call) and isinstance(x.func, ast.Attribute)
-                        and x.func.attr in MUTATORS and isinstance(x.func.value, ast.Name) and x.func.value.id == arg.arg]
-                sts = [x for x in walk_no_nested(f.node) if isinstance(x, ast.Subscript) and isinstance(x.ctx, ast.Store)
-                       and isinstance(x.value, ast.Name) and x.value.id == arg.arg]
-                if muts or sts:
-                    bad.append((f.node, f"mutable default argument {arg.arg} is modified (state shared between calls)"))
+        # default values are evaluated once: a mutable object (container literal or an object constructed in the signature) that the
+        # function modifies, hands on or returns is state shared between calls
+        par = None
+        pos = f.node.args.posonlyargs + f.node.args.args
+        pairs = list(zip(reversed(f.node.args.defaults), reversed(pos))) + [
+            (d, a_) for d, a_ in zip(f.node.args.kw_defaults, f.node.args.kwonlyargs) if d is not None]
+        for d, arg in pairs:
+            mutable = isinstance(d, (ast.List, ast.Dict, ast.Set, ast.ListComp, ast.DictComp, ast.SetComp))
+            if isinstance(d, ast.Call):
+                r = repo.resolve_expr(f.module, d.func)
+                name = r[1] if r and r[0] in ("ext", "builtin") else None
+                mutable = name not in IMMUTABLE_CTORS and not (r and r[0] == "class" and ctx.ev.is_enum(r[1]))
+            if not mutable:
+                continue
+            par = par or parents_of(f.node)
+            for x in walk_no_nested(f.node):
+                if not (isinstance(x, ast.Name) and x.id == arg.arg and isinstance(x.ctx, ast.Load)):
+                    continue
+                pp = par.get(x)
+                why = None
+                if isinstance(pp, ast.Attribute) and pp.value is x:
+                    g = par.get(pp)
+                    if isinstance(g, ast.Call) and g.func is pp and pp.attr not in READONLY_METHODS:
+                        why = f".{pp.attr}() called on it"
+                    elif isinstance(pp.ctx, ast.Store):
+                        why = f".{pp.attr} assigned"
+                elif isinstance(pp, ast.Subscript) and pp.value is x and isinstance(pp.ctx, (ast.Store, ast.Del)):
+                    why = "item assigned"
+                elif isinstance(pp, ast.Call) and (x in pp.args or any(k.value is x for k in pp.keywords)):
+                    fnr = repo.resolve_expr(f.module, pp.func)
+                    if not (fnr and fnr[0] == "builtin" and fnr[1] in ("len", "isinstance", "bool", "sorted", "list", "dict", "tuple", "set", "str", "repr")):
+                        why = f"passed to {ast.unparse(pp.func)[:40]}()"
+                elif isinstance(pp, ast.Return):
+                    why = "returned"
+                elif isinstance(pp, ast.AugAssign) and pp.target is x:
+                    why = "augmented in place"
+                if why:
+                    bad.append((f.node, f"mutable default argument {arg.arg}={ast.unparse(d)[:30]}: {why} (one object shared by every call)"))
+                    break
         if fq in allow:
             bad = [b for b in bad if False]
         if bad:
